@@ -509,6 +509,41 @@ Proof.
   destruct (N.ltb_spec (h_account h) cost), (N.leb_spec cost (h_account h)); (done || lia).
 Qed.
 
+Lemma do_fund_Some h valid lk sg amount h' :
+  do_fund h valid lk sg amount = Some h' →
+  valid = true ∧ lk = true ∧ sg = true ∧
+  ∃ r', pay (h_rev h) (mk_usage amount 0) = Some r' ∧
+        h' = mk_host (h_roots h) r' (h_account h + amount).
+Proof.
+  unfold do_fund. destruct valid, lk; simpl; try done.
+  destruct (pay _ _) as [r'|]; [|done]. destruct sg; simpl; [|done].
+  intros [= <-]. repeat split; try done. by exists r'.
+Qed.
+
+Lemma do_fund_ok h valid lk sg amount h' :
+  committed_ok h → do_fund h valid lk sg amount = Some h' → committed_ok h'.
+Proof.
+  intros [Hc1 Hc2] E. apply do_fund_Some in E as (_ & _ & _ & r' & Hp & ->).
+  apply pay_fields in Hp as (Hr & Hs & _). split; simpl; congruence.
+Qed.
+
+(** funding moves exactly [amount] from the renter output of the revision to the account and
+    leaves the roots alone; a refused funding changes nothing *)
+Theorem fund_rpc_model h valid lk sg amount :
+  do_fund h valid lk sg amount =
+  (if valid && lk && sg && (amount <=? r_funds (h_rev h))%N
+   then Some (mk_host (h_roots h)
+                (mk_rev (r_num (h_rev h) + 1) (r_root (h_rev h)) (r_size (h_rev h)) (r_cap (h_rev h))
+                   (r_funds (h_rev h) - amount) (r_hostval (h_rev h) + amount) (r_missed (h_rev h) - 0))
+                (h_account h + amount))
+   else None).
+Proof.
+  unfold do_fund, pay. destruct valid, lk; simpl; try done.
+  destruct (N.ltb_spec (r_funds (h_rev h)) amount), (N.leb_spec amount (r_funds (h_rev h))); try lia.
+  - by rewrite andb_false_r.
+  - destruct (N.ltb_spec (r_missed (h_rev h)) 0); [lia|]. by destruct sg.
+Qed.
+
 Lemma do_acct_ok h valid has cost h' :
   committed_ok h → do_acct h valid has cost = Some h' → committed_ok h'.
 Proof.
@@ -533,13 +568,15 @@ Proof.
   intros [Hc Hp]. destruct s as [h ph]. simpl in *.
   destruct ph as [|p|]; destruct m as [rq|valid]; unfold step; simpl; try (by split).
   - (* a request on a fresh stream *)
-    destruct rq as [idxs lk ch pr u|sectors lk ch pr u|off len lk pr sg u|av ah cost].
+    destruct rq as [idxs lk ch pr u|sectors lk ch pr u|off len lk pr sg u|fv flk fsg amt|av ah cost].
     + destruct (begin_free Copied h idxs lk ch pr u) as [[h' p]|] eqn:E; simpl; [|by split].
       apply begin_free_ok in E as [-> ?]. by split.
     + destruct (begin_append h sectors lk ch pr u) as [[o [p|]]|] eqn:E; simpl; try (by split).
       split; [done|]. by eapply begin_append_ok.
     + destruct (do_roots h off len lk pr sg u) as [[h' o]|] eqn:E; simpl; [|by split].
       split; [|done]. by eapply do_roots_ok.
+    + destruct (do_fund h fv flk fsg amt) as [h'|] eqn:E; simpl; [|by split].
+      split; [|done]. by eapply do_fund_ok.
     + destruct (do_acct h av ah cost) as [h'|] eqn:E; simpl; [|by split].
       split; [|done]. by eapply do_acct_ok.
   - (* the renter's signature *)
@@ -549,7 +586,16 @@ Qed.
 
 Lemma step_ev_ok s e : hst_ok s → hst_ok (step_ev Copied s e).
 Proof.
-  intros H. destruct e as [|m]; [|by apply step_ok]. split; [apply H|done].
+  intros H. destruct e as [|m|r]; [split; [apply H|done]|by apply step_ok|].
+  destruct s as [h ph]. destruct H as [Hc Hp]. simpl in *.
+  destruct ph as [|p|].
+  - split; [|done]. apply (step_ok (mk_hst h PIdle) (MReq r)). by split.
+  - destruct r as [| | | |av ah cost]; try (by split).
+    destruct (do_acct h av ah cost) as [h'|] eqn:E; [|by split].
+    split; [by eapply do_acct_ok|]. simpl.
+    rewrite account_rpc_model in E. destruct (_ && _ && _); [|done]. injection E as <-.
+    by destruct p.
+  - split; [|done]. apply (step_ok (mk_hst h PIdle) (MReq r)). by split.
 Qed.
 
 Lemma exec_ok evs : ∀ s, hst_ok s → hst_ok (exec Copied s evs).
@@ -574,8 +620,10 @@ Lemma step_unchanged s m :
 Proof.
   intros Hn. destruct s as [h ph].
   destruct ph as [|p|]; destruct m as [rq|valid]; unfold step; simpl; try done.
-  - destruct rq as [idxs lk ch pr u|sectors lk ch pr u|off len lk pr sg u|av ah cost];
-      [| | |destruct av, ah; simpl; solve [done|by destruct Hn]].
+  - destruct rq as [idxs lk ch pr u|sectors lk ch pr u|off len lk pr sg u|fv flk fsg amt|av ah cost];
+      [| | | |destruct av, ah; simpl; solve [done|by destruct Hn]].
+    4: { destruct (do_fund h fv flk fsg amt) as [h'|] eqn:E; simpl; [|done].
+         apply do_fund_Some in E as (-> & -> & -> & _). by destruct Hn. }
     + destruct (begin_free Copied h idxs lk ch pr u) as [[h' p]|] eqn:E; simpl; [|done].
       by apply begin_free_copied in E as (-> & _).
     + destruct (begin_append h sectors lk ch pr u) as [[o [p|]]|]; done.
@@ -596,7 +644,13 @@ Theorem abort_is_noop evs : ∀ s,
 Proof.
   unfold exec. induction evs as [|e evs IH]; intros s Hf; [done|].
   apply Forall_cons in Hf as [He Hf]. simpl. rewrite IH by done.
-  destruct e as [|m]; [done|]. by apply step_unchanged.
+  destruct e as [|m|r]; [done|by apply step_unchanged|].
+  destruct s as [h ph]. simpl.
+  destruct ph as [|p|]; simpl.
+  - apply (step_unchanged (mk_hst h PIdle) (MReq r)). by destruct r as [| |? ? ? ? [] ?|[] [] [] ?|[] [] ?].
+  - destruct r as [| | | |av ah cost]; try done.
+    destruct av, ah; simpl; done.
+  - apply (step_unchanged (mk_hst h PIdle) (MReq r)). by destruct r as [| |? ? ? ? [] ?|[] [] [] ?|[] [] ?].
 Qed.
 
 Ltac no_valid_sig :=
@@ -979,3 +1033,33 @@ Example failed_account_rpc_is_noop_ex :
   hs_host (exec Copied (init host3)
     [ENew; EMsg (MReq (AcctReq true false 7)); ENew; EMsg (MReq (AcctReq false true 7))]) = host3.
 Proof. split; [no_valid_sig|by vm_compute]. Qed.
+
+(** non-vacuity for funding and for requests on another stream while the first handler waits *)
+Example fund_and_interleave_ex :
+  do_fund host3 true true true 10 =
+    Some (mk_host [1; 2; 3]%N
+            (mk_rev 8 (mroot [1; 2; 3]%N) (3 * sector_size) (3 * sector_size) 990 10 1000) 60) ∧
+  do_fund host3 true true false 10 = None ∧
+  let free := EMsg (MReq (FreeReq [0] true true true usage1)) in
+  (* an append on another stream while the free waits is refused; the free then commits *)
+  h_roots (hs_host (exec Copied (init host3)
+     [ENew; free; EOther (AppendReq [(9, true)]%N true true true usage1); EMsg (MSig true)])) = [3; 2]%N ∧
+  (* … and if the free is then abandoned nothing has changed at all *)
+  hs_host (exec Copied (init host3)
+     [ENew; free; EOther (AppendReq [(9, true)]%N true true true usage1);
+      EOther (FundReq true true true 10); ENew]) = host3 ∧
+  (* a paid read on another stream is served during the wait and does not disturb the free *)
+  hs_host (exec Copied (init host3) [ENew; free; EOther (AcctReq true true 7); EMsg (MSig true)]) =
+    mk_host [3; 2]%N (mk_rev 8 (mroot [3; 2]%N) (2 * sector_size) (3 * sector_size) 999 1 1000) 43.
+Proof. by vm_compute. Qed.
+
+(** the renewal of a contract in a good state is in a good state, with the same roots *)
+Theorem renew_ok h funds hostval missed :
+  committed_ok h →
+  committed_ok (renew h funds hostval missed) ∧
+  h_roots (renew h funds hostval missed) = h_roots h ∧
+  h_account (renew h funds hostval missed) = h_account h.
+Proof. intros [H1 H2]. repeat split; done. Qed.
+
+Example renew_ex : committed_ok host3 ∧ h_roots (renew host3 5 6 7) = [1; 2; 3]%N.
+Proof. split; by vm_compute. Qed.
